@@ -130,9 +130,10 @@ def positional_names(pkg, call):
     return None
 
 
-def argument(pkg, call, name, names=None):
+def argument(pkg, call, name, names=None, caller=None):
     """term passed for parameter `name` of a call (positional or keyword), or None if not passed.
-    Returns the string 'unknown' when a *star / **kwargs argument could carry it."""
+    Returns the string 'unknown' when a *star / **kwargs argument could carry it.  `caller` (a loader.Function): the
+    caller's own **kwargs cannot carry a name that is one of the caller's named parameters."""
     for k, v in call[3]:
         if k == name:
             return v
@@ -144,6 +145,9 @@ def argument(pkg, call, name, names=None):
             return "unknown"
         if i < len(pos):
             return pos[i]
-    if any(k is None for k, _ in call[3]):
-        return "unknown"
+    for k, v in call[3]:
+        if k is None:
+            if caller is not None and v == ("param", "**" + (caller.kwarg or "")) and name in caller.params:
+                continue
+            return "unknown"
     return None
